@@ -57,7 +57,7 @@ theorem Eqv.trans {k : Nat} {s t u : Store} (h1 : Eqv k s t) (h2 : Eqv k t u) : 
 /-- the save queue and the `_save_pos_` fields agree -/
 def SaveOk (s : Store) : Prop :=
   ∀ o, o < s.n → (∀ p, (s.row o).savePos = some p → s.toSave[p]? = some (some o)) ∧
-       ((s.row o).status = .inserted ∨ (s.row o).status = .updated → (s.row o).savePos = none)
+       ((s.row o).status.queued = false → (s.row o).savePos = none)
 
 /-- running the trail from (a store equivalent to) the current store restores the store the call started from -/
 def Restores (s0 : Store) (st : St) : Prop :=
@@ -319,7 +319,7 @@ theorem MarkSpec.saveOk {s s1 : Store} {o : ObjId} {pop : Bool} (h : MarkSpec s 
       · rw [hq.2.2.1] at hq'
         cases hq'
         rw [hq.1]; simp
-      · rw [hq.2.2.2] at hst; rcases hst with hst | hst <;> cases hst
+      · rw [hq.2.2.2] at hst; cases hst
     · rw [h.other p hp, hq.1]
       refine ⟨fun q hq' => ?_, h2⟩
       have := h1 q hq'
@@ -348,7 +348,7 @@ theorem step_markEntry {s0 : Store} {st : St} {s2 : Store} {o : ObjId} {pop : Bo
     have hq := hspec.q
     cases pop
     · simp only [Bool.false_eq_true, if_false] at hq ⊢; exact ⟨hq.1, hq.2.1⟩
-    · simp only [if_true] at hq ⊢; exact ⟨hq.1, (g.save o ho).2 hq.2.1⟩
+    · simp only [if_true] at hq ⊢; exact ⟨hq.1, (g.save o ho).2 (by rcases hq.2.1 with e | e <;> rw [e] <;> rfl)⟩
 
 /-! ### key entries popped by `_delete_` and restored by its closure -/
 
@@ -617,16 +617,14 @@ theorem SaveOk.punch {s : Store} (h : SaveOk s) (o : ObjId) (ho : o < s.n) (p : 
     · rw [List.getElem?_set_ne hpp]; exact e1
 
 theorem SaveOk.append {s : Store} (h : SaveOk s) (o : ObjId) (hp : (s.row o).savePos = none) (st' : Status)
-    (hst : st' ≠ .inserted ∧ st' ≠ .updated) (m : Bool) :
+    (hst : st'.queued = true) (m : Bool) :
     SaveOk { (s.upd o fun r => { r with savePos := some s.toSave.length, status := st' }) with toSave := s.toSave ++ [some o], modified := m } := by
   intro q hqn
   by_cases hq : q = o
   · rw [hq]; simp only [Store.upd, if_true]
     refine ⟨fun p' hp' => ?_, fun hs => ?_⟩
     · cases hp'; simp
-    · rcases hs with hs | hs
-      · exact absurd hs hst.1
-      · exact absurd hs hst.2
+    · rw [hst] at hs; cases hs
   · obtain ⟨h1, h2⟩ := h q hqn
     simp only [Store.upd, hq, if_false]
     refine ⟨fun p' hp' => ?_, h2⟩
@@ -1252,7 +1250,7 @@ theorem step_finishDelete (sch : Schema) (o : ObjId) (st : St) (ho : o < st.stor
               · intro g
                 have h1 : SaveOk s1 := g.save.of_eq hpop.toSave hpop.n (fun q => by rw [hpop.row]; exact ⟨rfl, rfl⟩)
                 have h2 := h1.punch o (hpop.n ▸ ho) p (by rw [hpop.row]; exact hp) .modified ⟨by simp, by simp⟩
-                have h3 := h2.append o (by simp [Store.upd]) .marked ⟨by simp, by simp⟩ true
+                have h3 := h2.append o (by simp [Store.upd]) .marked rfl true
                 refine h3.of_eq rfl rfl (fun q => ?_)
                 by_cases hq : q = o
                 · rw [hq]; simp [Store.upd]
@@ -1269,7 +1267,7 @@ theorem step_finishDelete (sch : Schema) (o : ObjId) (st : St) (ho : o < st.stor
               · intro g; rw [hnone]; exact hpop.toSave
               · intro g
                 have h1 : SaveOk s1 := g.save.of_eq hpop.toSave hpop.n (fun q => by rw [hpop.row]; exact ⟨rfl, rfl⟩)
-                exact h1.append o (by rw [hpop.row]; exact hnone) .marked ⟨by simp, by simp⟩ true
+                exact h1.append o (by rw [hpop.row]; exact hnone) .marked rfl true
 
 end prims
 
